@@ -1,11 +1,23 @@
 #!/bin/bash
-# try_seed.sh <seedname> <prop>...: apply a stored seeded change to /repo, run the quick checks, undo.
+# try_seed.sh <seedname> <prop>...: apply a stored seeded change to /repo's working tree, run the quick checks, undo.
+# Uses patch_on_head.diff when present (the same change re-expressed on the current tree after a fix: commit moved the code).
+# With DEMO=1 also runs the seed's demonstration test on the changed tree (expected to fail).
 name=$1; shift
 P=/verif/seeded/$name/patch.diff; [ -f /verif/seeded/$name/patch_on_head.diff ] && P=/verif/seeded/$name/patch_on_head.diff
-cd /repo && { git apply $P 2>/dev/null || git apply -C1 /verif/seeded/$name/patch.diff 2>/dev/null || git apply --3way /verif/seeded/$name/patch.diff; } || exit 2
+cd /repo || exit 2
+if [ -n "$(git status --porcelain)" ]; then echo "/repo working tree not clean"; exit 2; fi
+if ! { git apply $P 2>/dev/null || git apply -C1 $P 2>/dev/null; }; then echo "SEED $name DOES NOT APPLY to the current tree"; git checkout -q -- . ; exit 2; fi
+if [ -n "$DEMO" ]; then
+  demo=$(ls /verif/seeded/$name/*_test.go | head -1)
+  pkg=$(git diff --name-only | head -1 | xargs dirname)
+  [ -f /verif/seeded/$name/pkgdir ] && pkg=$(cat /verif/seeded/$name/pkgdir)
+  tn=$(grep -o 'func TestSeed[A-Za-z0-9_]*' $demo | head -1 | sed 's/func //')
+  echo "{\"Replace\":{\"/repo/$pkg/$(basename $demo)\":\"$demo\"}}" > /root/seed_ov.json
+  ( unset GOTOOLCHAIN GOSUMDB; export GOFLAGS=-mod=mod GOPROXY=off; go test -overlay /root/seed_ov.json -vet=off -count=1 -timeout 120s -run "^$tn\$" ./$pkg/ 2>&1 | tail -4 )
+  echo "demo exit=$?"
+fi
 for p in "$@"; do
   /verif/bin/govc check --prop $p --tier quick --no-evidence | grep -v "^FAILED\|^       " | tail -6
-  echo "exit=$?"
 done
-git -C /repo reset -q --hard HEAD
+git -C /repo checkout -q -- .
 git -C /repo status --short
